@@ -76,6 +76,17 @@ CHECKS = {
         note="Trusted: CPython, the harness. The generated message text is only checked for its frame here (C06/C07/C20 judge it).",
         technique="explicit exhaustive enumeration of role x kind x error form x factory-parameter subsets, executed as 4-step histories on the real code",
         design="3/C09"),
+    "C10": dict(
+        text="Exhaustive enumeration of call-graph programs (functions f, g with pre/post(/capture), DBC class K with an invariant, "
+             "method m with pre/post, constructor, two long-lived instances): each of 12 slots holds a script of 0-2 actions from "
+             "{f(), g(), self.m(), other.m(), K()}; all programs with <=2 (quick) / <=3 (thorough) non-empty slots x 4 top-level "
+             "actions x (all true | each evaluated condition falsy). A monitor over the real well-nested event tree requires "
+             "termination and that every call with no evaluation of its own contracts (resp. no operation on the same object) "
+             "among its ancestors is fully checked; re-entrant calls may be checked or bare.",
+        note="Trusted: CPython, the monitor. Body scripts run at most twice per run; programs whose invariant constructs a new "
+             "instance of its own class are excluded (infinite under any semantics). Runaway detector: 600 frames / 6000 events.",
+        technique="exhaustive enumeration of bounded call-graph programs executed on the real code, tree monitor (shortest program first)",
+        design="3/C10"),
     "C16": dict(
         text="Exhaustive exploration of family F (all kinds, sync/async, plain/DBC chains of <=3 classes, own and inherited "
              "stacks of pre/post/snapshot/invariant, two decorator layouts, foreign functools.wraps decorators at top/middle/"
